@@ -49,6 +49,7 @@ def main() -> int:
     parser.add_argument("--no-evidence", action="store_true")
     parser.add_argument("--mutants", default=None)
     parser.add_argument("--replay-dir", default=None)
+    parser.add_argument("--no-minimise", action="store_true")
     args = parser.parse_args()
     seed = args.seed
     if seed is None:
@@ -68,6 +69,8 @@ def main() -> int:
         print(f"SELFTEST running with in-memory mutant {os.environ['WGSIM_MUTANT']}")
     if args.replay_dir:
         driver.REPLAY_SUBDIR = args.replay_dir
+    if args.no_minimise:
+        driver.MAX_MINIMISED_KEYS = {p: 0 for p in ("C01", "C14", "C17", "C18")}
 
     if args.prop == "selftest":
         from wgsim import selftest  # pylint: disable=import-outside-toplevel
